@@ -362,6 +362,8 @@ theorem numLoop_parsed (rest : List Nat) : ∀ (st : NState) (acc : NumAcc) (pos
       split at h
       · next hx => exact drop (by simp at hx; simp [hx.2]) hinv.underscore_int h
       split at h
+      · cases h
+      split at h
       · next hx =>
         have : x = 46 := by simpa using hx
         subst this
@@ -370,8 +372,6 @@ theorem numLoop_parsed (rest : List Nat) : ∀ (st : NState) (acc : NumAcc) (pos
       · next hx =>
         exact keep (by simp [isExpChar] at hx; rcases hx with rfl | rfl <;> simp [notUnderscore])
           (t_int_exp hinv hx) h
-      split at h
-      · cases h
       · cases h; exact NumDone.stop (parsed_int hinv)
     · -- dot
       split at h
@@ -383,11 +383,11 @@ theorem numLoop_parsed (rest : List Nat) : ∀ (st : NState) (acc : NumAcc) (pos
       split at h
       · next hx => exact drop (by simp at hx; simp [hx.2]) hinv.underscore_frac h
       split at h
+      · cases h
+      split at h
       · next hx =>
         exact keep (by simp [isExpChar] at hx; rcases hx with rfl | rfl <;> simp [notUnderscore])
           (t_frac_exp hinv hx) h
-      split at h
-      · cases h
       · cases h; exact NumDone.stop (parsed_frac hinv)
     · -- exp
       split at h
